@@ -14,6 +14,7 @@ import (
 	"strconv"
 	"strings"
 	"time"
+	"unicode/utf8"
 
 	"github.com/btcsuite/btcd/btcec/v2/schnorr"
 )
@@ -1332,20 +1333,87 @@ func (ev *Event) Serialize() ([]byte, error) {
 		return nil, errors.New("nil event")
 	}
 
-	v := [6]any{
-		0,
-		ev.Pubkey,
-		ev.CreatedAt,
-		ev.Kind,
-		ev.Tags,
-		ev.Content,
+	ret := make([]byte, 0, 128+len(ev.Content))
+	ret = append(ret, "[0,"...)
+	ret = appendNIP01String(ret, ev.Pubkey)
+	ret = append(ret, ',')
+	ret = strconv.AppendInt(ret, ev.CreatedAt, 10)
+	ret = append(ret, ',')
+	ret = strconv.AppendInt(ret, ev.Kind, 10)
+	ret = append(ret, ',')
+	if ev.Tags == nil {
+		ret = append(ret, nullJSON...)
+	} else {
+		ret = append(ret, '[')
+		for i, tag := range ev.Tags {
+			if i > 0 {
+				ret = append(ret, ',')
+			}
+			if tag == nil {
+				ret = append(ret, nullJSON...)
+				continue
+			}
+			ret = append(ret, '[')
+			for j, elem := range tag {
+				if j > 0 {
+					ret = append(ret, ',')
+				}
+				ret = appendNIP01String(ret, elem)
+			}
+			ret = append(ret, ']')
+		}
+		ret = append(ret, ']')
 	}
+	ret = append(ret, ',')
+	ret = appendNIP01String(ret, ev.Content)
+	ret = append(ret, ']')
 
-	ret, err := json.Marshal(&v)
-	if err != nil {
-		return nil, fmt.Errorf("failed to marshal event: %w", err)
-	}
 	return ret, nil
+}
+
+// appendNIP01String appends s as a JSON string using only the escapes NIP-01
+// mandates for the serialized event: \" \\ \n \r \t \b \f, the remaining
+// control characters as \u00xx, and every other character verbatim.
+func appendNIP01String(dst []byte, s string) []byte {
+	const hexdigits = "0123456789abcdef"
+
+	dst = append(dst, '"')
+	for i := 0; i < len(s); {
+		c := s[i]
+		if c >= utf8.RuneSelf {
+			r, size := utf8.DecodeRuneInString(s[i:])
+			if r == utf8.RuneError && size == 1 {
+				dst = append(dst, "\\ufffd"...)
+			} else {
+				dst = append(dst, s[i:i+size]...)
+			}
+			i += size
+			continue
+		}
+		switch c {
+		case '"', '\\':
+			dst = append(dst, '\\', c)
+		case '\n':
+			dst = append(dst, '\\', 'n')
+		case '\r':
+			dst = append(dst, '\\', 'r')
+		case '\t':
+			dst = append(dst, '\\', 't')
+		case '\b':
+			dst = append(dst, '\\', 'b')
+		case '\f':
+			dst = append(dst, '\\', 'f')
+		default:
+			if c < 0x20 {
+				dst = append(dst, '\\', 'u', '0', '0', hexdigits[c>>4], hexdigits[c&0xf])
+			} else {
+				dst = append(dst, c)
+			}
+		}
+		i++
+	}
+	dst = append(dst, '"')
+	return dst
 }
 
 func (ev *Event) Verify() (bool, error) {
